@@ -117,3 +117,250 @@ def resolve(E, v, keep=(), depth=0):
     if not alts:
         return [(v, [])]
     return out
+
+
+# ---- positions in a slice ---------------------------------------------------------------------------------------------
+# `[_, a, b] = args`, `args.split_first()?.1.try_into()?` + array map, `&args[1..]`, `args.get(1)?` all denote "the element
+# at position k of args": element(sl, v) brings such a value to ('index', base, '[k]') (conversions applied element-wise
+# by array::map are kept around the element, so string/path conversions can be peeled by the caller as before)
+_SAME_POS = ('::each_ref', '::each_mut', '::as_slice', '::as_mut_slice', '::as_ref', '::as_mut', '::deref', '::deref_mut',
+             '::borrow', '::borrow_mut', '::iter', '::into_iter', '::to_vec', '::to_owned', '::clone', '::into_boxed_slice',
+             '::try_into', '::try_from', '::into', '::from')
+_RANGE = {'RangeFrom': 'start', 'Range': 'start', 'RangeInclusive': 'start'}
+
+
+def _const_int(v):
+    v = _strip(v)
+    if v[0] == 'const' and isinstance(v[1], int) and not isinstance(v[1], bool):
+        return v[1]
+    if v[0] == 'const' and isinstance(v[1], str) and v[1].isdigit():
+        return int(v[1])
+    return None
+
+
+def _strip(v):
+    while isinstance(v, tuple) and v and v[0] in ('unwrap', 'updated') and len(v) > 1 and isinstance(v[1], tuple):
+        v = v[1]
+    return v
+
+
+def _range_start(v):
+    """start of a range value used as a slice index (`a..`, `a..b`); 0 for `..b` / `..`"""
+    v = _strip(v)
+    if v[0] == 'agg':
+        nm = (v[1] or '').rsplit('::', 1)[-1]
+        if nm in _RANGE:
+            for fname, fv in v[3]:
+                if fname == _RANGE[nm]:
+                    return _const_int(fv)
+            return None
+        if nm in ('RangeTo', 'RangeToInclusive', 'RangeFull'):
+            return 0
+    if v[0] == 'call' and v[1].endswith('RangeInclusive::<Idx>::new') and v[2]:
+        return _const_int(v[2][0])
+    return None
+
+
+def slice_base(sl, v, off=0, depth=0):
+    """(base slice value, offset): position i of v is position i + offset of base"""
+    if depth > 24:
+        return v, off
+    s = _strip(v)
+    # the success payload of a length-checked conversion / Option adapters around it
+    while s[0] == 'call' and s[2] and s[1] in ('std::result::Result::<T, E>::ok', 'std::option::Option::<T>::ok_or',
+                                              'std::option::Option::<T>::ok_or_else', 'std::result::Result::<T, E>::map_err'):
+        s = _strip(s[2][0])
+    if s[0] == 'index' and s[2].startswith('[') and '..' in s[2]:
+        a = s[2][1:-1].split('..')[0]
+        if a.isdigit():
+            return slice_base(sl, s[1], off + int(a), depth + 1)
+        return v, off
+    if s[0] == 'field' and s[2] in ('0', '1'):
+        t = _strip(s[1])
+        if t[0] == 'call' and t[2]:
+            if t[1].endswith(('::split_first', '::split_first_mut')) and s[2] == '1':
+                return slice_base(sl, t[2][0], off + 1, depth + 1)
+            if t[1].endswith(('::split_last', '::split_last_mut')) and s[2] == '1':
+                return slice_base(sl, t[2][0], off, depth + 1)
+            if t[1].endswith(('::split_at', '::split_at_mut', '::split_at_checked', '::split_at_mut_checked')) and len(t[2]) == 2:
+                k = _const_int(t[2][1])
+                if s[2] == '0':
+                    return slice_base(sl, t[2][0], off, depth + 1)
+                if k is not None:
+                    return slice_base(sl, t[2][0], off + k, depth + 1)
+        return v, off
+    if s[0] == 'call' and s[2]:
+        nm = s[1]
+        if nm.endswith(('::index', '::index_mut', '::get', '::get_mut')) and len(s[2]) == 2:
+            k = _range_start(s[2][1])
+            if k is not None:
+                return slice_base(sl, s[2][0], off + k, depth + 1)
+            return v, off
+        if len(s[2]) == 1 and nm.endswith(_SAME_POS) and ('[T' in nm or 'slice' in nm or 'array' in nm or 'Vec' in nm or 'vec' in nm
+                                                         or nm.startswith(('std::convert::', 'std::ops::Deref', 'std::borrow::', 'std::clone::',
+                                                                           'std::iter::IntoIterator'))):
+            return slice_base(sl, s[2][0], off, depth + 1)
+    return v, off
+
+
+def element(sl, v, depth=0):
+    """normal form of "element k of a slice": ('index', base, '[k]') with base as far down as slice_base can follow;
+    element-wise functions of array::map are applied to the element. Anything else is returned unchanged."""
+    if depth > 12 or not isinstance(v, tuple) or not v:
+        return v
+    s = _strip(v)
+    k = base = None
+    if s[0] == 'index' and s[2].startswith('[') and '..' not in s[2] and s[2][1:-1].isdigit():
+        k, base = int(s[2][1:-1]), s[1]
+    elif s[0] == 'call' and s[2] and s[1].endswith(('::first', '::first_mut')) and 'slice' in s[1] and len(s[2]) == 1:
+        k, base = 0, s[2][0]
+    elif s[0] == 'call' and len(s[2]) == 2 and s[1].endswith(('::index', '::index_mut', '::get', '::get_mut', '::get_unchecked')) \
+            and _const_int(s[2][1]) is not None:
+        k, base = _const_int(s[2][1]), s[2][0]
+    elif s[0] == 'field' and s[2] == '0' and _strip(s[1])[0] == 'call' and _strip(s[1])[1].endswith(('::split_first', '::split_first_mut')) \
+            and _strip(s[1])[2]:
+        k, base = 0, _strip(s[1])[2][0]
+    if k is None:
+        return v
+    b = _strip(base)
+    while b[0] == 'call' and b[2] and b[1] in ('std::result::Result::<T, E>::ok',):
+        b = _strip(b[2][0])
+    if b[0] == 'call' and len(b[2]) == 2 and b[1].endswith('>::map') and ('array' in b[1] or '[T; N]' in b[1]):
+        inner = element(sl, ('index', b[2][0], '[%d]' % k), depth + 1)
+        f = b[2][1]
+        if f[0] == 'fnitem' and f[1] not in sl.prog.fns:
+            return ('call', f[1], (inner,), None)
+        r = sl.apply_closure(f, (inner,))
+        return r if r is not None else ('call', 'std::array::<impl [T; N]>::map', (inner, f), None)
+    root, off = slice_base(sl, base)
+    return ('index', root, '[%d]' % (k + off))
+
+
+# ---- file-type tests ---------------------------------------------------------------------------------------------------
+# std defines Path::is_file(p) = fs::metadata(p).map(|m| m.is_file()).unwrap_or(false) (likewise is_dir; exists = metadata(p).is_ok()):
+# a stat that follows symlinks whose failure counts as "no". file_test brings the spellings of that predicate to one form.
+_FOLLOW = {'std::fs::metadata': True, 'std::path::Path::metadata': True,
+           'std::fs::symlink_metadata': False, 'std::path::Path::symlink_metadata': False,
+           'std::fs::DirEntry::metadata': False, 'std::fs::DirEntry::file_type': False}
+_PATH_PRED = {'std::path::Path::is_file': 'is_file', 'std::path::Path::is_dir': 'is_dir', 'std::path::Path::exists': 'exists'}
+_META_PRED = {'std::fs::Metadata::is_file': 'is_file', 'std::fs::Metadata::is_dir': 'is_dir',
+              'std::fs::FileType::is_file': 'is_file', 'std::fs::FileType::is_dir': 'is_dir'}
+_TRUE_IF_OK = ('std::result::Result::<T, E>::is_ok_and', 'std::option::Option::<T>::is_some_and')
+_TRANSPARENT = ('std::result::Result::<T, E>::ok', 'std::result::Result::<T, E>::map_err', 'std::result::Result::<T, E>::inspect_err',
+                'std::result::Result::<T, E>::as_ref', 'std::option::Option::<T>::as_ref', 'std::convert::AsRef::as_ref',
+                'std::borrow::Borrow::borrow', 'std::ops::Deref::deref')
+
+
+def _stat_of(v):
+    """v = (payload of) a stat call on path P, possibly through transparent adapters: (P, follows symlinks?) | None"""
+    v = _strip(v)
+    while v[0] == 'call' and v[2] and v[1] in _TRANSPARENT:
+        v = _strip(v[2][0])
+    if v[0] == 'call' and v[2] and v[1] == 'std::fs::Metadata::file_type':
+        return _stat_of(v[2][0])
+    if v[0] == 'call' and v[2] and v[1] in _FOLLOW:
+        return v[2][0], _FOLLOW[v[1]]
+    return None
+
+
+def _is_false(v):
+    v = _strip(v)
+    return v[0] == 'const' and v[1] in (False, 'false', 0)
+
+
+def file_test(sl, v, depth=0):
+    """(kind 'is_file'|'is_dir'|'exists', path value, follows symlinks?) when the boolean v is that test (a failed stat
+    counting as false), else None"""
+    if depth > 6 or not isinstance(v, tuple) or not v:
+        return None
+    s = _strip(v)
+    if s[0] != 'call' or not s[2]:
+        return None
+    nm = s[1]
+    if nm in _PATH_PRED and len(s[2]) == 1:
+        return _PATH_PRED[nm], s[2][0], True
+    if nm in _META_PRED and len(s[2]) == 1:
+        # m.is_file() on the payload of a successful stat (`match fs::metadata(p) { Ok(m) => m.is_file(), Err(_) => false }`)
+        st = _stat_of(s[2][0])
+        return (_META_PRED[nm], st[0], st[1]) if st else None
+    if nm in _TRUE_IF_OK and len(s[2]) == 2:
+        st = _stat_of(s[2][0])
+        if st is None:
+            return None
+        probe = ('unwrap', _strip_adapters(s[2][0]))
+        body = sl.apply_closure(s[2][1], (probe,))
+        if body is None and s[2][1][0] == 'fnitem':
+            body = ('call', s[2][1][1], (probe,), None)
+        r = file_test(sl, body, depth + 1) if body is not None else None
+        return r if r and _same(r[1], st[0]) else None
+    if nm in ('std::result::Result::<T, E>::unwrap_or', 'std::option::Option::<T>::unwrap_or') and len(s[2]) == 2 and _is_false(s[2][1]):
+        m = _strip(s[2][0])
+        while m[0] == 'call' and m[2] and m[1] in _TRANSPARENT:
+            m = _strip(m[2][0])
+        if m[0] == 'call' and len(m[2]) == 2 and m[1] in ('std::result::Result::<T, E>::map', 'std::option::Option::<T>::map'):
+            return file_test(sl, ('call', _TRUE_IF_OK[0], (m[2][0], m[2][1]), None), depth + 1)
+        return None
+    if nm in ('std::result::Result::<T, E>::unwrap_or_default', 'std::option::Option::<T>::unwrap_or_default') and len(s[2]) == 1:
+        return file_test(sl, ('call', 'std::result::Result::<T, E>::unwrap_or', (s[2][0], ('const', False)), None), depth + 1)
+    if nm in ('std::result::Result::<T, E>::is_ok', 'std::option::Option::<T>::is_some') and len(s[2]) == 1:
+        st = _stat_of(s[2][0])
+        # only a plain stat: metadata(p).is_ok() = p.exists()
+        t = _strip_adapters(s[2][0])
+        if st and t[0] == 'call' and t[1] in _FOLLOW and t[1] != 'std::fs::DirEntry::file_type':
+            return 'exists', st[0], st[1]
+    return None
+
+
+def _strip_adapters(v):
+    v = _strip(v)
+    while v[0] == 'call' and v[2] and v[1] in _TRANSPARENT:
+        v = _strip(v[2][0])
+    return v
+
+
+def _same(a, b):
+    return _strip_adapters(a) == _strip_adapters(b)
+
+
+# ---- "the I/O error is NotFound" ----------------------------------------------------------------------------------------
+def not_found_test(views, cd, pred=None):
+    """[(error value E, holds?)] if the condition says `E.kind() == ErrorKind::NotFound` (holds True) or its negation
+    (holds False): `==` / `!=` in either operand order, `matches!` / `match` on E.kind() (variant condition or the
+    select view of an inlined private predicate), or a call of the workspace's not-found predicate `pred`."""
+    out = []
+    kind_of = lambda x: _strip(x)[2][0] if _strip(x)[0] == 'call' and _strip(x)[1] == 'std::io::Error::kind' and _strip(x)[2] else None
+    is_nf = lambda x: _strip(x)[0] == 'agg' and _strip(x)[2] == 'NotFound' and (_strip(x)[1] or '').endswith('ErrorKind')
+    if cd.kind == 'variant':
+        if (cd.enum or '').endswith('io::ErrorKind') and cd.subject is not None:
+            e = kind_of(cd.subject)
+            if e is not None:
+                if cd.outcome == frozenset({'NotFound'}):
+                    out.append((e, True))
+                elif 'NotFound' not in cd.outcome:
+                    out.append((e, False))
+        return out
+    if cd.kind != 'bool':
+        return out
+    for val, oc in views:
+        if not isinstance(oc, bool):
+            continue
+        val = _strip(val)
+        if val[0] == 'call' and val[1] in ('std::cmp::PartialEq::eq', 'std::cmp::PartialEq::ne') and len(val[2]) == 2:
+            a, b = val[2]
+            e = kind_of(a) if is_nf(b) else kind_of(b) if is_nf(a) else None
+            if e is not None:
+                out.append((e, oc if val[1].endswith('::eq') else not oc))
+        elif val[0] == 'call' and pred and val[1] == pred and val[2]:
+            out.append((val[2][0], oc))
+        elif val[0] == 'select' and (val[2] or '').endswith('ErrorKind'):
+            e = kind_of(val[1])
+            arms = [(set(names), _strip(x)) for names, x in val[3]]
+            yes = [names for names, x in arms if x[0] == 'const' and x[1] is oc]
+            rest = [names for names, x in arms if not (x[0] == 'const' and x[1] is oc)]
+            if e is not None and all(x[0] == 'const' and isinstance(x[1], bool) for _, x in arms):
+                taken = set().union(*yes) if yes else set()
+                if taken == {'NotFound'}:
+                    out.append((e, True))
+                elif 'NotFound' not in taken and any('NotFound' in n for n in rest):
+                    out.append((e, False))
+    return out
